@@ -19,9 +19,10 @@ import (
 func init() { commands["C14"] = runC14 }
 
 type c14op struct {
-	pi   *dialect.PathItem
-	o    *dialect.Op
-	body *JS
+	pi    *dialect.PathItem
+	o     *dialect.Op
+	body  *JS
+	plans []c10plan // one per response of o, in o.Responses order
 }
 
 // c14Package: one random kitchen-sink document
@@ -101,16 +102,24 @@ func c14Package(rng *rand.Rand, idx int) (rcase, []c14op) {
 				o.Security = &sec
 			}
 			tag := fmt.Sprintf("P%dO%d%s", idx, len(ops), m)
-			r1, _ := g.c10Response(sp, tag+"A", &junk, "")
-			r1.Status = "200"
+			r1, pl1 := g.c10Response(sp, tag+"A", &junk, "")
+			r1.Status, pl1.status = "200", "200"
 			o.Responses = []dialect.Response{r1}
+			plans := []c10plan{pl1}
 			if rng.Intn(2) == 0 {
-				r2, _ := g.c10Response(sp, tag+"B", &junk, "")
-				r2.Status = "default"
+				r2, pl2 := g.c10Response(sp, tag+"B", &junk, "")
+				r2.Status, pl2.status = "default", "default"
 				o.Responses = append(o.Responses, r2)
+				plans = append(plans, pl2)
+			}
+			for i := range plans {
+				plans[i].gotype = "@Response" + strings.Title(plans[i].status)
+				if plans[i].kind == "json" {
+					plans[i].gotype += "JSON"
+				}
 			}
 			pi.Ops = append(pi.Ops, o)
-			ops = append(ops, c14op{pi, o, body})
+			ops = append(ops, c14op{pi, o, body, plans})
 		}
 		sp.Paths = append(sp.Paths, pi)
 	}
@@ -185,6 +194,111 @@ func c14JSONBodies(rng *rand.Rand, g *jgen, body *JS) []string {
 	return out
 }
 
+// c14Requests: per structured/mutated requests against the operations of one document
+func c14Requests(rng *rand.Rand, g *jgen, ops []c14op, base string, per int, cfgExtra string, emit func(kind, cfg, method, rawurl string, headers [][2]string, body string)) {
+	cfgs := []string{"authdflt=any", "authdflt=none", "authdflt=nil", "mw=2,authdflt=any", "nf=1,cors=1,authdflt=any", "sf=1,authdflt=any"}
+	for n := 0; n < per; n++ {
+		op := ops[rng.Intn(len(ops))]
+		cfg := cfgs[rng.Intn(len(cfgs))] + cfgExtra
+		// a near-valid request for op, then one mutation class
+		var segs []string
+		for _, seg := range strings.Split(strings.TrimPrefix(op.pi.Raw, "/"), "/") {
+			if strings.HasPrefix(seg, "{") {
+				v := c14Segs[rng.Intn(len(c14Segs))]
+				if rng.Intn(3) != 0 {
+					for _, prm := range op.pi.Params {
+						if "{"+prm.Name+"}" == seg {
+							v = url.PathEscape(c14Valid(prm.Schema, rng))
+						}
+					}
+				}
+				segs = append(segs, v)
+			} else {
+				segs = append(segs, seg)
+			}
+		}
+		path := base + "/" + strings.Join(segs, "/")
+		q := url.Values{}
+		var hdrs [][2]string
+		for _, prm := range op.o.Params {
+			if rng.Intn(4) == 0 && !prm.Required {
+				continue
+			}
+			cnt := 1
+			if rng.Intn(4) == 0 {
+				cnt = rng.Intn(4)
+			}
+			for k := 0; k < cnt; k++ {
+				v := c14Texts[rng.Intn(len(c14Texts))]
+				if rng.Intn(3) != 0 {
+					v = c14Valid(prm.Schema, rng)
+				}
+				if prm.In == "query" {
+					q.Add(prm.Name, v)
+				} else if !strings.ContainsAny(v, "\x00\n\r") {
+					hdrs = append(hdrs, [2]string{prm.Name, v})
+				}
+			}
+		}
+		switch rng.Intn(4) {
+		case 0:
+			hdrs = append(hdrs, [2]string{"Authorization", []string{"Bearer tok", "tok", "", "Bearer ", "Basic xx"}[rng.Intn(5)]})
+		case 1:
+			hdrs = append(hdrs, [2]string{"X-Api-Key", "k"})
+		case 2:
+			q.Add("api_key", "k")
+		}
+		rawq := q.Encode()
+		body := ""
+		if op.o.Body != nil {
+			bodies := c14JSONBodies(rng, g, op.body)
+			body = bodies[rng.Intn(len(bodies))]
+		}
+		method := op.o.Method
+		kind := "near-valid"
+		switch rng.Intn(12) {
+		case 0:
+			path = strings.Replace(path, "/", "//", 1+rng.Intn(2))
+			kind = "doubled-slash"
+		case 1:
+			if len(path) > 1 {
+				path = path[:1+rng.Intn(len(path)-1)]
+			}
+			kind = "truncated-path"
+		case 2:
+			path = path + []string{"/", "/extra", "//", "/a/b/c/d/e/f"}[rng.Intn(4)]
+			kind = "extended-path"
+		case 3:
+			if base != "" {
+				path = []string{base[:len(base)-1], base + "x", strings.ToUpper(base), base + base}[rng.Intn(4)] + strings.TrimPrefix(path, base)
+			} else {
+				path = "/nobase" + path
+			}
+			kind = "base-near-miss"
+		case 4:
+			method = []string{"HEAD", "OPTIONS", "TRACE", "CONNECT", "get", "FOO", "", "PATCH"}[rng.Intn(8)]
+			kind = "other-method"
+		case 5:
+			rawq = []string{"%zz", "a=%zz", "&&&", "=", "a;b=1", "a=1&a=2&a=3", strings.Repeat("k=v&", 3000), "a[]=1", "%00=1"}[rng.Intn(9)]
+			kind = "malformed-query"
+		case 6:
+			path = "/" + strings.Repeat("a/", 3000)
+			kind = "huge-path"
+		case 7:
+			path = []string{"", "*", "noslash", "/..", "/%2e%2e/", "/\x00", "http://h/x"}[rng.Intn(7)]
+			kind = "odd-request-target"
+		case 8:
+			hdrs = append(hdrs, [2]string{"Content-Type", []string{"text/plain", "application/json; charset=utf-8", "", "multipart/form-data"}[rng.Intn(4)]})
+			kind = "content-type"
+		}
+		rawurl := path
+		if rawq != "" {
+			rawurl += "?" + rawq
+		}
+		emit(kind, cfg, method, rawurl, hdrs, body)
+	}
+}
+
 func c14Cases(c runCfg) ([]*scratch.Pkg, []string, map[string]interface{}) {
 	rng := rand.New(rand.NewSource(c.Seed))
 	npk, per := 6, 250
@@ -205,115 +319,14 @@ func c14Cases(c runCfg) ([]*scratch.Pkg, []string, map[string]interface{}) {
 			base = rc.FlagBase
 		}
 		base = normBase(base)
-		cfgs := []string{"authdflt=any", "authdflt=none", "authdflt=nil", "mw=2,authdflt=any", "nf=1,cors=1,authdflt=any", "sf=1,authdflt=any"}
-		emit := func(kind, cfg, method, rawurl string, headers [][2]string, body string) {
+		c14Requests(rng, g, ops, base, per, "", func(kind, cfg, method, rawurl string, headers [][2]string, body string) {
 			var hb strings.Builder
 			for _, h := range headers {
 				hb.WriteString(h[0] + ":" + h[1] + "\n")
 			}
 			lines = append(lines, fmt.Sprintf("F %s %s %s %s %s %s #kind=%s", rc.Pkg, cfg, method, dialect.Hx(rawurl), dialect.Hx(hb.String()), dialect.Hx(body), kind))
 			kinds[kind]++
-		}
-		for n := 0; n < per; n++ {
-			op := ops[rng.Intn(len(ops))]
-			cfg := cfgs[rng.Intn(len(cfgs))]
-			// a near-valid request for op, then one mutation class
-			var segs []string
-			for _, seg := range strings.Split(strings.TrimPrefix(op.pi.Raw, "/"), "/") {
-				if strings.HasPrefix(seg, "{") {
-					v := c14Segs[rng.Intn(len(c14Segs))]
-					if rng.Intn(3) != 0 {
-						for _, prm := range op.pi.Params {
-							if "{"+prm.Name+"}" == seg {
-								v = url.PathEscape(c14Valid(prm.Schema, rng))
-							}
-						}
-					}
-					segs = append(segs, v)
-				} else {
-					segs = append(segs, seg)
-				}
-			}
-			path := base + "/" + strings.Join(segs, "/")
-			q := url.Values{}
-			var hdrs [][2]string
-			for _, prm := range op.o.Params {
-				if rng.Intn(4) == 0 && !prm.Required {
-					continue
-				}
-				cnt := 1
-				if rng.Intn(4) == 0 {
-					cnt = rng.Intn(4)
-				}
-				for k := 0; k < cnt; k++ {
-					v := c14Texts[rng.Intn(len(c14Texts))]
-					if rng.Intn(3) != 0 {
-						v = c14Valid(prm.Schema, rng)
-					}
-					if prm.In == "query" {
-						q.Add(prm.Name, v)
-					} else if !strings.ContainsAny(v, "\x00\n\r") {
-						hdrs = append(hdrs, [2]string{prm.Name, v})
-					}
-				}
-			}
-			switch rng.Intn(4) {
-			case 0:
-				hdrs = append(hdrs, [2]string{"Authorization", []string{"Bearer tok", "tok", "", "Bearer ", "Basic xx"}[rng.Intn(5)]})
-			case 1:
-				hdrs = append(hdrs, [2]string{"X-Api-Key", "k"})
-			case 2:
-				q.Add("api_key", "k")
-			}
-			rawq := q.Encode()
-			body := ""
-			if op.o.Body != nil {
-				bodies := c14JSONBodies(rng, g, op.body)
-				body = bodies[rng.Intn(len(bodies))]
-			}
-			method := op.o.Method
-			kind := "near-valid"
-			switch rng.Intn(12) {
-			case 0:
-				path = strings.Replace(path, "/", "//", 1+rng.Intn(2))
-				kind = "doubled-slash"
-			case 1:
-				if len(path) > 1 {
-					path = path[:1+rng.Intn(len(path)-1)]
-				}
-				kind = "truncated-path"
-			case 2:
-				path = path + []string{"/", "/extra", "//", "/a/b/c/d/e/f"}[rng.Intn(4)]
-				kind = "extended-path"
-			case 3:
-				if base != "" {
-					path = []string{base[:len(base)-1], base + "x", strings.ToUpper(base), base + base}[rng.Intn(4)] + strings.TrimPrefix(path, base)
-				} else {
-					path = "/nobase" + path
-				}
-				kind = "base-near-miss"
-			case 4:
-				method = []string{"HEAD", "OPTIONS", "TRACE", "CONNECT", "get", "FOO", "", "PATCH"}[rng.Intn(8)]
-				kind = "other-method"
-			case 5:
-				rawq = []string{"%zz", "a=%zz", "&&&", "=", "a;b=1", "a=1&a=2&a=3", strings.Repeat("k=v&", 3000), "a[]=1", "%00=1"}[rng.Intn(9)]
-				kind = "malformed-query"
-			case 6:
-				path = "/" + strings.Repeat("a/", 3000)
-				kind = "huge-path"
-			case 7:
-				path = []string{"", "*", "noslash", "/..", "/%2e%2e/", "/\x00", "http://h/x"}[rng.Intn(7)]
-				kind = "odd-request-target"
-			case 8:
-				hdrs = append(hdrs, [2]string{"Content-Type", []string{"text/plain", "application/json; charset=utf-8", "", "multipart/form-data"}[rng.Intn(4)]})
-				kind = "content-type"
-			}
-			rawurl := path
-			if rawq != "" {
-				rawurl += "?" + rawq
-			}
-			emit(kind, cfg, method, rawurl, hdrs, body)
-		}
+		})
 	}
 	return pkgs, lines, map[string]interface{}{"packages_planned": npk, "requests": len(lines) - npk, "request_kinds": kinds}
 }
